@@ -1,6 +1,7 @@
 """Worker-level properties: C18 (window), C01/C07/C08/C15/C16 (sender), C02 (receiver)."""
 from .runner import Prop
 from .wutil import *
+from .wutil import gen_bytes
 
 A_WORKER = [
     "the scripted Socket delivers exactly the scripted receive events; socket.send never fails",
@@ -880,9 +881,22 @@ class C13(WorkerProp):
             for clean in (0, 1):
                 for flen in (0, 5, 8, 20, 1500):
                     L.append("dupwrq %d %d %d gen:%d:%d" % (b, w, clean, flen, b + w))
+        # through the server: --keep-on-error must reach the worker, in both port modes, with and without options
+        from .p_server import rq
+        root = (self.sandbox + "/k0").encode().hex()
+        for flags in ["-", "k", "s", "sk", "o", "ok", "xk", "x"]:
+            base = "recv" if "x" in flags else "srv"
+            for opts in [(), (("blksize", 8),), (("blksize", 16), ("windowsize", 2)), (("windowsize", 3), ("tsize", 99))]:
+                for nb in ([1, 2, 3] if tier == "quick" else [0, 1, 2, 3, 4, 5, 7]):
+                    fs = "%s/old=%s" % (base, "0102")
+                    L.append("abort %s %s %s %s %d" % (root, flags, fs, rq("wrq", rng.choice([b"up", b"sub/up", b"old"]), opts).hex(), nb))
         return L
 
+    retry_env = {"HARNESS_SLOW": "1"}
+
     def oracle(self, line, impl):
+        if line.startswith("abort "):
+            return self.abort_oracle(line, impl)
         if line.startswith("dupwrq "):
             t = line.split(" ")
             f = content(t[4])
@@ -896,14 +910,45 @@ class C13(WorkerProp):
             return None
         return WorkerProp.oracle(self, line, impl)
 
+    def abort_oracle(self, line, impl):
+        from .p_server import Case, parse_rq, recognised, parse_req_obs, lst, enc
+        if impl in ("abort", "panic") or not impl.startswith("r1="):
+            return ("server died or no observation: " + impl[:60], "died")
+        t = line.split(" ")
+        c = Case(" ".join(t[:5]))
+        r1, conv, fs = parse_req_obs(impl)
+        kind, name, opts = parse_rq(c.dgram)
+        if not (r1.endswith("ack 0") or " oack " in r1):
+            return None          # refused (e.g. existing file without --overwrite): nothing to clean up
+        rel, _ = c.resolve(kind, name)
+        rec = recognised(opts)
+        b = dict(rec).get("blksize", 512) if rec != "bad" else 512
+        sent = b"".join(gen_bytes(b, k) for k in range(1, int(t[5]) + 1))
+        after = lst(fs)
+        mine = [x for x in after if x.split(":")[0] == enc(rel)]
+        if not c.keep:
+            if mine:
+                return ("aborted upload (peer ERROR after %s blocks) left its partial file although clean-on-error is in force" % t[5], "abort-not-cleaned")
+        else:
+            if not mine:
+                if rel in c.dirs or rel.rsplit("/", 1)[0] not in c.dirs and "/" in rel:
+                    return None   # the file could never be created (missing parent)
+                return ("aborted upload removed its partial file although --keep-on-error was given", "abort-removed-despite-keep")
+            ln = int(mine[0].split(":")[1])
+            if ln > len(sent) or mine[0] != "%s:%d:%d" % (enc(rel), ln, fnv(sent[:ln])):
+                return ("kept partial file is not a prefix of the bytes sent", "abort-not-prefix")
+        return None
+
     def nontrivial(self, line, impl):
-        return line.startswith("dupwrq") or " | " in impl
+        return line.startswith("dupwrq") or line.startswith("abort") or " | " in impl
 
     def classify(self, line, impl, res):
-        if line.startswith("dupwrq"):
+        if line.startswith("abort"):
+            res.count("server-abort:flags=" + line.split(" ")[2])
+        elif line.startswith("dupwrq"):
             res.count("dupwrq:clean=" + line.split(" ")[3])
         else:
             WorkerProp.classify(self, line, impl, res)
 
     def shrink(self, line):
-        return [] if line.startswith("dupwrq") else WorkerProp.shrink(self, line)
+        return [] if line.startswith(("dupwrq", "abort")) else WorkerProp.shrink(self, line)
